@@ -77,7 +77,27 @@ partial def pType (cs : List Char) : Except PErr (Ty × List Char) := do
     one (.fsl n)
   else if w.startsWith "D" then one .dict
   else if w.startsWith "R" then one .ree
-  else if w.startsWith "M" ∨ w.startsWith "U" then throw .skip
+  else if w = "M" then do
+    let r ← expect '(' rest
+    let (k, r) ← pType r
+    let r ← expect ',' r
+    let (v, r) ← pType r
+    let r ← expect ')' r
+    pure (.map k v, r)
+  else if w.startsWith "U" then do
+    -- `Us(...)`, `Ud(...)`, `U<s|d><id>.<id>...(...)`
+    let idsTxt := (w.drop 2).toString
+    let r ← expect '(' rest
+    let rec loopU (r : List Char) (acc : List Ty) : Except PErr (List Ty × List Char) := do
+      let (t, r) ← pType r
+      match r with
+      | ',' :: r => loopU r (t :: acc)
+      | ')' :: r => pure ((t :: acc).reverse, r)
+      | _ => throw .bad
+    let (ts, r) ← loopU r []
+    let ids ← if idsTxt = "" then pure (List.range ts.length) else (idsTxt.splitOn ".").mapM natOf
+    if ids.length ≠ ts.length then throw .bad
+    pure (.union ids ts, r)
   else if w.startsWith "i" then do skipTag (← intTy true (w.drop 1).toString)
   else if w.startsWith "u" then do skipTag (← intTy false (w.drop 1).toString)
   else throw .bad
@@ -127,7 +147,12 @@ partial def pVal (cs : List Char) : Except PErr (Val × List Char) := do
     match hexBytes w.toList with
     | some b => pure (.bytes b, r')
     | none => throw .bad
-  | 'u' :: _ => throw .skip
+  | 'u' :: r => do
+    let (w, r) := word r
+    let idx ← natOf w
+    let r ← expect ':' r
+    let (v, r) ← pVal r
+    pure (.union idx v, r)
   | _ =>
     let (w, r) := word cs
     match parseInt w with
